@@ -332,10 +332,13 @@ func specialSpellings() []string {
 			}
 		}
 	}
+	// the same words with a letter that Unicode case folding maps onto an ASCII one
+	// (U+0130 lower-cases to "i", U+212A KELVIN SIGN to "k", U+017F LONG S to "s")
+	out = append(out, "\u0130nf", "-\u0130NF", "+\u0130nf", "\u0130nfinity", "-inf\u0130n\u0130ty", "\u0131nf", "na\u0274")
 	return out
 }
 
-var castTexts = []string{"0", "1", "-1", "42", "9223372036854775807", "9223372036854775808", "-9223372036854775808", "-9223372036854775809", "18446744073709551615", "18446744073709551616", "3.5", "-0.25", "1e3", "1E-2", "1e400", "-1e400", "0x1F", "0x1p-2", "1_000", ".5", "5.", "+7", "+9223372036854775807", "-9223372036854775807", "10000000000000000000", "00000000000000000042", "000000000000000000042", "00", "1e", "--1", "t", "T", "f", "F", "true", "TRUE", "True", "tRuE", "false", "FALSE", "False", "fAlse", "truee", "yes", "no", "", " ", "hello", "1 2", "é", "NaN", "nan", "Inf", "+Inf", "-Inf", "Infinity", "-infinity", "+INFINITY", "iNf", "nAn", "1/2", "٣", "１"}
+var castTexts = []string{"0", "1", "-1", "42", "9223372036854775807", "9223372036854775808", "-9223372036854775808", "-9223372036854775809", "18446744073709551615", "18446744073709551616", "3.5", "-0.25", "1e3", "1E-2", "1e400", "-1e400", "0x1F", "0x1p-2", "1_000", ".5", "5.", "+7", "+9223372036854775807", "-9223372036854775807", "10000000000000000000", "00000000000000000042", "000000000000000000042", "00", "1e", "--1", "t", "T", "f", "F", "true", "TRUE", "True", "tRuE", "false", "FALSE", "False", "fAlse", "truee", "yes", "no", "", " ", "hello", "1 2", "é", "NaN", "nan", "Inf", "+Inf", "-Inf", "Infinity", "-infinity", "+INFINITY", "iNf", "nAn", "1/2", "٣", "１", "\u0130nf", "tr\u00fce", "fal\u017fe", "TRU\u0045"}
 
 func c14Gen(r *Rng, n int) []string {
 	var ops []string
